@@ -53,7 +53,10 @@ def parse_directive(lines):
         if body.startswith(' '):
             body = body[1:]
         m = keyre.match(body.strip())
-        if m:
+        m2 = re.match(r'^(after|before)\s+("(?:[^"\\]|\\.)*"\s*:.*)$', body.strip(), re.S)
+        if m2:
+            opts.append([m2.group(1), m2.group(2)])
+        elif m:
             opts.append([m.group(1), m.group(2)])
         else:
             if not opts:
